@@ -78,6 +78,20 @@ Proof.
   exact (IH rest x H).
 Qed.
 
+
+(* with enough draws the loop itself raises no foreign exception unless from_components does *)
+Lemma attempts_no_crash fuel cc r bank pins : forall draws,
+  (forall d, In d draws -> is_crash (from_components e components T find_algo cc (rnd_comps2 e components r bank pins d)) = false) ->
+  (fuel <= List.length draws)%nat ->
+  is_crash (attempts e components T find_algo fuel cc r bank pins draws) = false.
+Proof.
+  induction fuel as [|fuel IH]; intros draws Hd Hl; [reflexivity|]. cbn [attempts].
+  destruct draws as [|d rest]; [cbn [List.length] in Hl; lia|].
+  pose proof (Hd d (or_introl eq_refl)) as H0.
+  destruct (from_components e components T find_algo cc (rnd_comps2 e components r bank pins d)); [reflexivity| |discriminate].
+  apply IH; [intros d' Hd'; apply Hd; right; exact Hd'|cbn [List.length] in Hl; lia].
+Qed.
+
 Section Pins.
 Variable cc : text.
 Variable r : row.
@@ -293,5 +307,56 @@ Proof using WF ZERO.
     apply filter_In in Hen as [Hen _]. exact Hen. }
   exists (rnd_comps2 e components r bank pins d). split; [exact Hfc|].
   exact (rnd_only cc r bank pins d Er LAY HP HB HD (HDRAWS d Hd)).
+Qed.
+
+(* every value the loop hands to from_components fits its field (for use with totality of from_components) *)
+Theorem random_values_fit cc r reg bi pins d :
+  find_row T cc = Some r -> fc_layout_ok components r = true ->
+  forallb (fun en => cleaned e (e_code en)) R = true ->
+  (forall k0 v0, In (k0, v0) (r_defaults r) -> cleaned e v0 = true) ->
+  (forall k v, In (k, v) pins -> cleaned e v = true) ->
+  cleaned e (upper e d) = true ->
+  let bank := if reg : bool then match country_entries R cc with [] => None | l => nth_error l bi end else None in
+  forall k, In k components ->
+    text_eqb k k_bank = false -> text_eqb k k_branch = false -> text_eqb k k_account = false ->
+    (len (clean e (get_val k (rnd_comps2 e components r bank pins d))) <= range_length (fc_rng components r k))%Z.
+Proof using All.
+  intros Er LAY HCODES HD HP HDRAW bank.
+  assert (HB : forall en, bank = Some en -> cleaned e (e_code en) = true).
+  { intros en Hen. rewrite forallb_forall in HCODES. apply HCODES.
+    unfold bank in Hen. destruct reg; [|discriminate].
+    destruct (country_entries R cc) as [|e0 l] eqn:El; [discriminate|].
+    apply nth_error_In in Hen. rewrite <- El in Hen. unfold country_entries, idx_filter in Hen.
+    apply filter_In in Hen as [Hen _]. exact Hen. }
+  exact (rnd_only cc r bank pins d Er LAY HP HB HD HDRAW).
+Qed.
+
+(* BBAN.random raises no foreign exception (given the 100 draws the loop may ask for), provided from_components does not
+   on values that fit their fields *)
+Theorem random_no_crash cc0 reg pins ci bi draws :
+  (forall cc r values, find_row T cc = Some r ->
+     (forall k, In k components -> text_eqb k k_bank = false -> text_eqb k k_branch = false -> text_eqb k k_account = false ->
+        (len (clean e (get_val k values)) <= range_length (fc_rng components r k))%Z) ->
+     is_crash (from_components e components T find_algo cc values) = false) ->
+  (forall r, In r T -> fc_layout_ok components r = true) ->
+  forallb (fun en => cleaned e (e_code en)) R = true ->
+  (forall r k0 v0, In r T -> In (k0, v0) (r_defaults r) -> cleaned e v0 = true) ->
+  (forall k v, In (k, v) pins -> cleaned e v = true) ->
+  (forall d, In d draws -> cleaned e (upper e d) = true) ->
+  (100 <= List.length draws)%nat ->
+  is_crash (random_bban e components T find_algo R cc0 reg pins ci bi draws) = false.
+Proof using WF ZERO.
+  intros Htot HLAY HCODES HD HP HDRAWS Hlen.
+  unfold random_bban. cbv zeta. unfold get_spec.
+  set (cc := match cc0 with [] => nth ci (country_keys R) [] | _ => cc0 end).
+  destruct (find_row T cc) as [r|] eqn:Er; [|reflexivity]. cbn [bind].
+  assert (Hin : In r T) by (unfold find_row in Er; apply find_some in Er as [Hin _]; exact Hin).
+  destruct (r_positions r).
+  - remember (if reg then match country_entries R cc with [] => None | l => nth_error l bi end else None) as bank eqn:Ebank.
+    assert (Hnc : is_crash (attempts e components T find_algo 100 cc r bank pins draws) = false).
+    { apply attempts_no_crash; [|exact Hlen]. intros d Hd. apply (Htot cc r _ Er). subst bank.
+      exact (random_values_fit cc r reg bi pins d Er (HLAY r Hin) HCODES (fun k0 v0 => HD r k0 v0 Hin) HP (HDRAWS d Hd)). }
+    destruct (attempts e components T find_algo 100 cc r bank pins draws); [reflexivity|reflexivity|discriminate].
+  - destruct draws as [|d rest]; [cbn [List.length] in Hlen; lia|reflexivity].
 Qed.
 End RandomFacts.
